@@ -3,7 +3,7 @@
 # check against it. The check must report a violation (a fixed entry suppresses nothing).
 cd /verif
 export GOFLAGS=-mod=mod GOPROXY=off GOSUMDB=off GOTOOLCHAIN=local
-grep "^fixed:" KNOWN_FINDINGS.txt | while read -r _ prop hash rest; do
+grep "^fixed:" KNOWN_FINDINGS.txt | grep -E "${1:-.}" | while read -r _ prop hash rest; do
   id=${prop#property=}
   W=/tmp/vr-$$-$hash
   git -C /repo worktree add --detach "$W" HEAD >/dev/null 2>&1 || { echo "$id $hash worktree-failed"; continue; }
